@@ -9,7 +9,7 @@ use crate::{for_both, hx, Ctx};
 use blsful::*;
 use serde_json::json;
 
-pub const RULE: &str = "(1) GOLDEN CORPUS /verif/golden/corpus-4bdca94.json, produced once by the pinned release: for every data type x group x scheme the bytes / serde_bare / serde_json encodings plus the ground truth (keys, messages, identifiers, plaintexts, challenges). On the current tree every artefact must still decode in all three codecs to equal values, re-encode to the recorded bytes, and verify / decrypt / recombine to its ground truth (signatures also: the current tree must produce the same bytes; ciphertexts and proofs also: the reference implementation must open / accept them). Pinned outputs that were self-inconsistent at generation are flagged in the corpus and judged through what is consistent (SecretKeyEnum raw byte form; MessageAugmentation time-lock ciphertexts open with the raw tagged signature over the identifier). (2) LIVE INTEROP on fresh inputs, reference -> library: signcryption ciphertexts sealed by the reference (own framing, salts, Shake128 keystream) must be valid and decrypt in the library; time-lock ciphertexts sealed by the reference must open with library signatures; proofs of knowledge built by the reference (interactive and with y = H(u || t_le)) must verify; ElGamal proofs built by the reference over its own merlin transcript must verify and decrypt; serde_bare layouts written byte by byte by the reference (variant || point, u || LEB(len) || v || w || scheme, u || v || LEB(len) || w || scheme, variant || u || v [|| t_le64], id || payload) must decode to values equal to the library's own. (library -> reference is exercised by C10-C14 and again by the corpus.) Distinct by (origin, suite, kind, scheme, encoded bytes).";
+pub const RULE: &str = "(1) GOLDEN CORPUS /verif/golden/corpus-4bdca94.json, produced once by the pinned release: for every data type x group x scheme the bytes / serde_bare / serde_json encodings plus the ground truth (keys, messages, identifiers, plaintexts, challenges). On the current tree every artefact must still decode in all three codecs to equal values, re-encode to the recorded bytes, and verify / decrypt / recombine to its ground truth (signatures also: the current tree must produce the same bytes; ciphertexts and proofs also: the reference implementation must open / accept them). Pinned outputs that were self-inconsistent at generation are flagged in the corpus and judged through what is consistent (SecretKeyEnum raw byte form; MessageAugmentation time-lock ciphertexts open with the raw tagged signature over the identifier). (2) LIVE INTEROP on fresh inputs, reference -> library: signcryption ciphertexts sealed by the reference (own framing, salts, Shake128 keystream) must be valid and decrypt in the library; time-lock ciphertexts sealed by the reference must open with library signatures; proofs of knowledge built by the reference (interactive and with y = H(u || t_le)) must verify; ElGamal proofs built by the reference over its own merlin transcript must verify and decrypt, with the default AND with a caller-supplied message generator (trait-level API, both directions); serde_bare layouts written byte by byte by the reference (variant || point, u || LEB(len) || v || w || scheme, u || v || LEB(len) || w || scheme, variant || u || v [|| t_le64], id || payload) must decode to values equal to the library's own. (library -> reference is exercised by C10-C14 and again by the corpus.) Distinct by (origin, suite, kind, scheme, encoded bytes).";
 
 pub fn corpus_path(ctx: &Ctx) -> std::path::PathBuf {
     ctx.verif_dir.join("golden").join("corpus-4bdca94.json")
@@ -193,5 +193,35 @@ fn interop<C: Suite>(ctx: &mut Ctx) {
         let ok = lp_.verify(pk).is_ok() && lp_.verify_and_decrypt(&sk).ok().map(|p| enc_pt(&p)) == Some(want);
         ctx.expect(ok, &format!("C18/library-rejects-reference/elgamal/{n}"), || json!({"what":"an ElGamal proof built by the independent implementation over its own merlin transcript is rejected or decrypts wrongly","proof":hex::encode(Vec::from(&lp_))}));
         ctx.hit(&format!("ref->lib/{n}/elgamal"), &[&Vec::from(&lp_)]);
+        // the trait-level API takes a caller-supplied message generator: it goes into the
+        // transcript under the label "generator" - both directions with a non-default generator
+        {
+            let hk = gen::random_scalar(&mut rng);
+            let h = <C::R as RC>::Pk::gen().mul(&hk);
+            let lh = lp::<C>(h);
+            let rpk = refimpl::sk_to_pk::<C::R>(&k);
+            let (b2, r2) = (gen::random_scalar(&mut rng), gen::random_scalar(&mut rng));
+            let rp = refimpl::elgamal_prove_gen::<C::R>(rpk, h, &m, &b2, &r2);
+            let ok = <C as BlsElGamal>::verify_proof(pk.0, Some(lh), lp::<C>(rp.c1), lp::<C>(rp.c2), sc_from_rs::<C>(&rp.message_proof), sc_from_rs::<C>(&rp.blinder_proof), sc_from_rs::<C>(&rp.challenge)).is_ok();
+            ctx.expect(ok, &format!("C18/library-rejects-reference/elgamal-custom-generator/{n}"), || json!({"what":"the library rejects a reference-built ElGamal proof over a caller-supplied generator (transcript label `generator`)"}));
+            let rng2 = { use rand_core::SeedableRng; rand_chacha::ChaCha20Rng::from_seed([7u8; 32]) };
+            match <C as BlsElGamal>::seal_scalar_with_proof(pk.0, sc_from_rs::<C>(&m), Some(lh), None, rng2) {
+                Ok((c1, c2, mp, bp, ch)) => {
+                    let p = refimpl::RElGamalProof::<C::R> {
+                        c1: RPk::<C>::dec(&enc_pt(&c1)).unwrap_or(RPk::<C>::id()),
+                        c2: RPk::<C>::dec(&enc_pt(&c2)).unwrap_or(RPk::<C>::id()),
+                        message_proof: rs_from_sc::<C>(&mp),
+                        blinder_proof: rs_from_sc::<C>(&bp),
+                        challenge: rs_from_sc::<C>(&ch),
+                    };
+                    ctx.expect(refimpl::elgamal_verify_gen::<C::R>(rpk, h, &p), &format!("C18/reference-rejects-library/elgamal-custom-generator/{n}"), || json!({"what":"the reference rejects a library-built ElGamal proof over a caller-supplied generator"}));
+                    // and it decrypts to m*h
+                    let dec = <C as BlsElGamal>::verify_and_decrypt(sk.0, Some(lh), c1, c2, mp, bp, ch).ok().map(|p| enc_pt(&p));
+                    ctx.expect(dec == Some(h.mul(&m).enc()), &format!("C18/custom-generator-decrypt/{n}"), || json!({"what":"verify_and_decrypt over a caller-supplied generator does not return m*h"}));
+                }
+                Err(e) => ctx.violation(&format!("C18/custom-generator-seal-failed/{n}"), json!({"error":e.to_string()})),
+            }
+            ctx.hit(&format!("ref->lib/{n}/elgamal"), &[b"custom-generator", &h.enc()]);
+        }
     }
 }
